@@ -394,6 +394,29 @@ def alternatives_rules(rng):
     return out
 
 
+def dup_variants_rules(rng):
+    """several duplication rules with one left symbol over the same pair of non-terminals (A -> B C, A -> C B,
+    A -> B B, A -> A B ...), only some of them productive, plus a little context"""
+    N = ["S"] + rng.sample(DETOUR_NAMES, 2)
+    left = rng.choice(N)
+    x, y = rng.choice(N), rng.choice(N)
+    variants = [("dup", left, x, y), ("dup", left, y, x), ("dup", left, x, x), ("dup", left, y, y)]
+    rules = rng.sample(variants, rng.randint(2, 3))
+    for n in N:
+        if rng.random() < 0.5:
+            rules.append(("end", n, rng.choice("ab")))
+    for r in rand_rules(rng, max_n=3)[:rng.randint(0, 3)]:
+        ren = {"S": "S", "A": N[1], "B": N[2], "C": N[1]}
+        rules.append(tuple(ren.get(t, t) if i in (1, 2, 3) and r[0] != "cons" or (r[0] == "cons" and i in (2, 3))
+                           else t for i, t in enumerate(r)))
+    out = []
+    for r in rules:
+        if r not in out:
+            out.append(r)
+    rng.shuffle(out)
+    return out
+
+
 def tolib(rules, optim=7, start="S"):
     from pyformlang.indexed_grammar import (Rules, ConsumptionRule, EndRule, ProductionRule, DuplicationRule,
                                             IndexedGrammar)
@@ -423,7 +446,7 @@ def small_exhaustive():
 def plan(tier, rng, sl, nslices, stats):
     cfg = TIERS[tier]
     for i in range(cfg["random"]):
-        rules = [rand_rules, layered_rules, detour_rules, alternatives_rules, detour_rules][i % 5](rng)
+        rules = [rand_rules, layered_rules, detour_rules, alternatives_rules, detour_rules, dup_variants_rules][i % 6](rng)
         yield {"rules": [list(r) for r in rules], "seed": rng.randrange(1 << 30)}
     for _ in range(cfg["products"]):
         fa = gfa.random_case(rng, max_states=2, max_syms=2, kinds=("dfa", "enfa"), vcs=["int", "str"])
@@ -598,6 +621,12 @@ def run_case(c, stats):
             ok, v = call(g.is_empty)
             if ok:
                 verdicts.add(bool(v))
+                if bool(v) != (not ne):
+                    # judged against the rules as LISTED by the caller (the contract on is_empty reads the rules back
+                    # from the library object, which misses a rule lost at construction)
+                    with core.oracle_mode():
+                        core.report(PROP, "is_empty", "wrong-empty-for-listed-rules" if v else
+                                    "wrong-nonempty-for-listed-rules", {"optim": optim}, tags_rules(rules))
     with core.oracle_mode():
         core.LOG.count("C17.order_independence")
         if len(verdicts) > 1:
@@ -607,6 +636,18 @@ def run_case(c, stats):
         if ok:
             call(g.is_empty)
             call(g.is_empty)                    # repeated on the same object (marked state kept)
+            if j == 1:
+                # the rule set is edited through its public mutators after the grammar was queried, and queried again
+                # (only growth, over non-terminals the grammar already has: the marking is monotone and nothing in
+                # the library claims to support removals from a live grammar)
+                nts = sorted({t for r in rules for t in ((r[1],) if r[0] == "end" else r[1:3] if r[0] == "prod"
+                                                           else r[2:4] if r[0] == "cons" else r[1:4])})
+                if nts:
+                    x, y, f = rng.choice(nts), rng.choice(nts), rng.choice("fg")
+                    ok_e, _ = call(g.rules.add_production, x, y, f)
+                    if ok_e:
+                        core.LOG.count("C17.edited_rules")
+                        call(g.is_empty)
             ok, u = call(g.remove_useless_rules)
             if ok:
                 call(u.is_empty)
